@@ -496,6 +496,7 @@ func c18rNewSrv(cfg verifh.Cfg, dir string) *c18rSrv {
 		if f := e.before; f != nil { // inter: another request goes through the server while this handler has not read its body yet
 			e.before = nil
 			ran, seen, ctx, claims := e.ran, e.seen, e.ctx, e.claims
+			e.ctx = map[string]string{} // the second request's handler records into a map of its own
 			f()
 			e.ran, e.seen, e.ctx, e.claims = ran, seen, ctx, claims
 		}
